@@ -811,6 +811,152 @@ class AResource:
     on_post = on_put = on_delete = on_head = on_foo = on_checkin = on_get
 
 
+# ---- hooked resources: @falcon.before / @falcon.after on a base class, a subclass delegating with super().on_*()
+#      in every argument form (positional, keyword, mixed) - the documented delegation pattern
+
+def _hook_body(req, resp, resource, params, tag):
+    trace('hook', tag, conv(params))
+    v = params.get('item_id')
+    if isinstance(v, str) and v.isdigit():
+        params['item_id'] = int(v) * 2
+    if v == 'deny':
+        raise falcon.HTTPForbidden(description='hook %s' % tag)
+    if tag != 'cls':                 # the class-level hook wraps the subclass's responders, which take the fields only
+        params['hooked'] = tag
+
+
+def w_hook(req, resp, resource, params, tag='m'):
+    _hook_body(req, resp, resource, params, tag)
+
+
+async def a_hook(req, resp, resource, params, tag='m'):
+    _hook_body(req, resp, resource, params, tag)
+
+
+def w_after(req, resp, resource, tag='m'):
+    trace('after', tag, resp.status_code)
+    resp.set_header('X-After', tag)
+
+
+async def a_after(req, resp, resource, tag='m'):
+    trace('after', tag, resp.status_code)
+    resp.set_header('X-After', tag)
+
+
+class WHooked1Base:
+    @falcon.before(w_hook)
+    @falcon.after(w_after)
+    def on_get(self, req, resp, item_id, **params):
+        w_responder(req, resp, item_id=item_id, **params)
+
+    @falcon.before(w_hook, 'second')
+    @falcon.before(w_hook, 'first')
+    def on_post(self, req, resp, item_id, **params):
+        w_responder(req, resp, item_id=item_id, **params)
+
+    @falcon.after(w_after, 'put')
+    @falcon.before(w_hook, tag='kw')
+    def on_put(self, req, resp, item_id, **params):
+        w_responder(req, resp, item_id=item_id, **params)
+
+
+class WHooked1(WHooked1Base):
+    def on_get(self, req, resp, item_id):
+        super().on_get(req, resp, item_id)                  # positional
+
+    def on_post(self, req, resp, item_id):
+        super().on_post(req, resp, item_id=item_id)          # keyword
+
+    def on_put(self, req, resp, item_id):
+        super().on_put(req, resp, item_id)                  # positional through after+before
+
+
+@falcon.before(w_hook, 'cls')
+class WHooked1Cls(WHooked1):
+    pass
+
+
+class WHooked2Base:
+    @falcon.before(w_hook)
+    def on_get(self, req, resp, item_id, sub, **params):
+        w_responder(req, resp, item_id=item_id, sub=sub, **params)
+
+    @falcon.after(w_after, 'two')
+    @falcon.before(w_hook, 'two')
+    def on_put(self, req, resp, item_id, sub, **params):
+        w_responder(req, resp, item_id=item_id, sub=sub, **params)
+
+    on_delete = on_put
+
+
+class WHooked2(WHooked2Base):
+    def on_get(self, req, resp, item_id, sub):
+        super().on_get(req, resp, item_id, sub)             # both positional
+
+    def on_put(self, req, resp, item_id, sub):
+        super().on_put(req, resp, item_id, sub=sub)         # mixed
+
+    def on_delete(self, req, resp, item_id, sub):
+        super().on_delete(req, resp, sub=sub, item_id=item_id)
+
+
+class AHooked1Base:
+    @falcon.before(a_hook)
+    @falcon.after(a_after)
+    async def on_get(self, req, resp, item_id, **params):
+        await a_responder(req, resp, item_id=item_id, **params)
+
+    @falcon.before(a_hook, 'second')
+    @falcon.before(a_hook, 'first')
+    async def on_post(self, req, resp, item_id, **params):
+        await a_responder(req, resp, item_id=item_id, **params)
+
+    @falcon.after(a_after, 'put')
+    @falcon.before(a_hook, tag='kw')
+    async def on_put(self, req, resp, item_id, **params):
+        await a_responder(req, resp, item_id=item_id, **params)
+
+
+class AHooked1(AHooked1Base):
+    async def on_get(self, req, resp, item_id):
+        await super().on_get(req, resp, item_id)                  # positional
+
+    async def on_post(self, req, resp, item_id):
+        await super().on_post(req, resp, item_id=item_id)          # keyword
+
+    async def on_put(self, req, resp, item_id):
+        await super().on_put(req, resp, item_id)                  # positional through after+before
+
+
+@falcon.before(a_hook, 'cls')
+class AHooked1Cls(AHooked1):
+    pass
+
+
+class AHooked2Base:
+    @falcon.before(a_hook)
+    async def on_get(self, req, resp, item_id, sub, **params):
+        await a_responder(req, resp, item_id=item_id, sub=sub, **params)
+
+    @falcon.after(a_after, 'two')
+    @falcon.before(a_hook, 'two')
+    async def on_put(self, req, resp, item_id, sub, **params):
+        await a_responder(req, resp, item_id=item_id, sub=sub, **params)
+
+    on_delete = on_put
+
+
+class AHooked2(AHooked2Base):
+    async def on_get(self, req, resp, item_id, sub):
+        await super().on_get(req, resp, item_id, sub)             # both positional
+
+    async def on_put(self, req, resp, item_id, sub):
+        await super().on_put(req, resp, item_id, sub=sub)         # mixed
+
+    async def on_delete(self, req, resp, item_id, sub):
+        await super().on_delete(req, resp, sub=sub, item_id=item_id)
+
+
 def w_sink(req, resp, **params):
     w_responder(req, resp, **params)
 
@@ -874,6 +1020,10 @@ def apps_for(opts, mw='independent'):
         app.req_options.auto_parse_qs_csv = key[2]
         for r in ROUTES:
             app.add_route(r, res)
+        asgi_app = app is aa
+        app.add_route('/hooked/{item_id}', AHooked1() if asgi_app else WHooked1())
+        app.add_route('/hooked/{item_id}/{sub}', AHooked2() if asgi_app else WHooked2())
+        app.add_route('/hookedc/{item_id}', AHooked1Cls() if asgi_app else WHooked1Cls())
         app.add_sink(sink, '/sink')
         # static routes: one under the sink's prefix (sinks are documented to win by default on both stacks), one apart
         app.add_static_route('/sink/static', static_dir())
@@ -922,7 +1072,9 @@ def apps_for(opts, mw='independent'):
 # =================================================================================== legs
 
 def norm_triple(status, headers, body):
-    return [status, sorted([k.lower(), v] for k, v in headers), body]
+    """Header SET: names lower-cased and grouped, but lines of the same name keep the order in which they were sent
+    (for repeated fields such as Set-Cookie the order is meaningful: the last line for a cookie name wins)."""
+    return [status, sorted(([k.lower(), v] for k, v in headers), key=lambda kv: kv[0]), body]
 
 
 def begin(req):
@@ -1699,7 +1851,7 @@ CLASS_FLOORS = ['cls.path-pct-utf8', 'cls.path-invalid-utf8', 'cls.path-trailing
                 'resp.body.stream.set_stream', 'read.read', 'read.readn', 'read.iter', 'read.media', 'read.multipart',
                 'fam.E6.sim-style', 'fam.E6.sim-query-style', 'sim.style.inline-query', 'sim.style.inline-query-with-qmark',
                 'sim.style.params-dict', 'fam.E6.sim-ows', 'sim.style.ows-header-value', 'sim.style.none-header-value',
-                'fam.E1.static', 'fam.E4.multipart-limits', 'mon.default-options',
+                'fam.E1.hooked', 'fam.E5.cookie-sources', 'fam.E1.static', 'fam.E4.multipart-limits', 'mon.default-options',
                 'fam.E8.ops-single', 'fam.E8.render-then-change', 'fam.E8.preset-x-mode', 'fam.E6.sim-header-forms',
                 'sim.style.headers-one-shot', 'sim.style.headers-mapping', 'sim.style.headers-mappingproxy', 'sim.style.headers-tuple',
                 'fam.E3.fwd-kinds', 'fam.E6.sim-arg-forms', 'sim.style.port-str', 'sim.style.body-str',
